@@ -79,6 +79,10 @@ class Builtins:
             a = a.absorbed
         if isinstance(b, ListV) and b.absorbed is not None:
             b = b.absorbed
+        if isinstance(a, SetV) and isinstance(b, SetV) and isinstance(op, (ast.BitAnd, ast.BitOr, ast.Sub, ast.BitXor)):
+            r = self.set_op({ast.BitAnd: "and", ast.BitOr: "or", ast.Sub: "sub", ast.BitXor: "xor"}[type(op)], a, b, node, fr)
+            if r is not None:
+                return r
         if isinstance(op, ast.Add):
             if isinstance(a, Str) and isinstance(b, Str):
                 return a + b
@@ -98,12 +102,13 @@ class Builtins:
                 return Unknown(f"({I.show(a)}+{I.show(b)})", {"op": "+", "args": [a, b]})
             if isinstance(a, (ListV, AbsList, Unknown)) and isinstance(b, (ListV, AbsList, Unknown)):
                 return Unknown(f"({I.show(a)}+{I.show(b)})", {"op": "+", "args": [a, b]})
-        if isinstance(op, (ast.Sub, ast.Mult, ast.FloorDiv, ast.Mod, ast.Div, ast.Pow, ast.BitOr, ast.BitAnd)):
+        if isinstance(op, (ast.Sub, ast.Mult, ast.FloorDiv, ast.Mod, ast.Div, ast.Pow, ast.BitOr, ast.BitAnd, ast.LShift, ast.RShift, ast.BitXor)):
             if isinstance(a, IntV) and isinstance(b, IntV):
                 try:
                     r = {ast.Sub: lambda x, y: x - y, ast.Mult: lambda x, y: x * y, ast.FloorDiv: lambda x, y: x // y,
                          ast.Mod: lambda x, y: x % y, ast.Pow: lambda x, y: x ** y, ast.BitOr: lambda x, y: x | y,
-                         ast.BitAnd: lambda x, y: x & y, ast.Div: lambda x, y: x / y}[type(op)](a.v, b.v)
+                         ast.BitAnd: lambda x, y: x & y, ast.Div: lambda x, y: x / y, ast.LShift: lambda x, y: x << y,
+                         ast.RShift: lambda x, y: x >> y, ast.BitXor: lambda x, y: x ^ y}[type(op)](a.v, b.v)
                 except ZeroDivisionError:
                     I.raise_exc("ZeroDivisionError", [], node, fr)
                 return I.lift(r)
@@ -116,6 +121,41 @@ class Builtins:
             return Unknown(f"({I.show(a)}{type(op).__name__}{I.show(b)})",
                            {"op": type(op).__name__, "args": [a, b]})
         raise I.unsupported(f"binary {type(op).__name__} on {a!r}, {b!r}", node, fr)
+
+    def set_op(self, name: str, a: SetV, b: Value, node, fr) -> Optional[Value]:
+        """set algebra on concrete sets whose elements compare decidably"""
+        I = self.I
+        if isinstance(b, ListV) and b.absorbed is not None:
+            return None
+        if isinstance(b, DictV):
+            bi = [k for k, _ in b.pairs]
+        elif isinstance(b, (SetV, ListV, TupleV)):
+            bi = list(b.items)
+        else:
+            return None
+
+        def member(x, items):
+            rs = [I.try_equals(x, y) for y in items]
+            if any(r is True for r in rs):
+                return True
+            if any(r is None for r in rs):
+                return I.equals_any(x, items) if hasattr(I, "equals_any") else any(I.equals(x, y) for y in items)
+            return False
+        if name in ("intersection", "and"):
+            return SetV([x for x in a.items if member(x, bi)])
+        if name in ("difference", "sub"):
+            return SetV([x for x in a.items if not member(x, bi)])
+        if name in ("union", "or"):
+            return SetV(list(a.items) + [y for y in bi if not member(y, a.items)])
+        if name in ("symmetric_difference", "xor"):
+            return SetV([x for x in a.items if not member(x, bi)] + [y for y in bi if not member(y, a.items)])
+        if name == "issubset":
+            return I.lift(all(member(x, bi) for x in a.items))
+        if name == "issuperset":
+            return I.lift(all(member(y, a.items) for y in bi))
+        if name == "isdisjoint":
+            return I.lift(not any(member(x, bi) for x in a.items))
+        return None
 
     def _src(self, v: Value) -> str:
         if isinstance(v, AbsList):
@@ -172,6 +212,10 @@ class Builtins:
         label = self.I.up(node) if node is not None else "in"
         if isinstance(container, ListV) and container.absorbed is not None:
             container = container.absorbed
+        if isinstance(container, Obj):
+            m = container.cls.find_method("__contains__")
+            if m is not None:
+                return I.truth(I.call_func(m, [item], {}, container, node, fr), label)
         if isinstance(container, (ListV, TupleV, SetV)):
             unknown = False
             for x in container.items:
@@ -524,7 +568,12 @@ class Builtins:
         if isinstance(v, Obj):
             return any(c.name == tname for c in v.cls.mro()) or tname in v.cls.all_extern_bases() or tname == "object"
         if isinstance(v, EnumV):
-            return any(c.name == tname for c in v.cls.mro()) or tname in ("Enum", "object")
+            ext = set(v.cls.all_extern_bases())
+            if "StrEnum" in ext:
+                ext.add("str")
+            if "IntEnum" in ext or "IntFlag" in ext:
+                ext.add("int")
+            return any(c.name == tname for c in v.cls.mro()) or tname in ("Enum", "object") or tname in ext
         if isinstance(v, ExcV):
             return I.exc_matches(v, tname)
         if isinstance(v, (Unknown, SymBool)):
@@ -854,12 +903,16 @@ class Builtins:
                 return IntV(sum(1 for x in recv.items if I.equals(x, args[0])))
         if isinstance(recv, AbsList):
             if meth in ("append", "extend", "insert"):
+                # the list object is mutated in place (every alias sees it): no longer a pure image of its source
                 I.run.event("abslist_mutation", target=recv, method=meth, args=args, node=node)
+                recv.flags["mixed"] = True
+                recv.flags.setdefault("appended", []).append((meth, [I.expr_of(a) for a in args]))
                 return NONE
             if meth == "copy":
                 return recv
             if meth in ("sort", "reverse"):
                 I.run.event("abslist_mutation", target=recv, method=meth, args=args, node=node)
+                recv.flags["order"] = meth
                 return NONE
             if meth in ("index", "count"):
                 return Unknown(I.run.new_tag(f"{recv.src}.{meth}"), {"type": "int"})
@@ -919,6 +972,13 @@ class Builtins:
             if meth == "discard":
                 recv.items = [x for x in recv.items if I.try_equals(x, args[0]) is not True]
                 return NONE
+            if meth == "clear":
+                recv.items = []
+                return NONE
+            if meth in ("intersection", "difference", "issubset", "issuperset", "isdisjoint") and len(args) == 1:
+                r = self.set_op(meth, recv, args[0], node, fr)
+                if r is not None:
+                    return r
         if isinstance(recv, TupleV) and meth in ("index", "count"):
             return Unknown(I.run.new_tag(f"tuple.{meth}"), {"type": "int"})
         raise I.unsupported(f"method {meth} on {recv!r}", node, fr)
@@ -1217,7 +1277,14 @@ class Builtins:
     # ---- regex / re --------------------------------------------------------
     def _rx_call(self, name, args, kwargs, node, fr, meta):
         I = self.I
-        I.run.event("extern_call", name=name, args=args, kwargs=kwargs, node=node, recv=None,
+        # the event names pattern and subject by keyword however the call passed them (positionally, or as the
+        # receiver of a compiled pattern's method); `args` keeps the positional list as written
+        ekw = dict(kwargs)
+        if args:
+            ekw.setdefault("pattern", args[0])
+        if len(args) > 1:
+            ekw.setdefault("string", args[1])
+        I.run.event("extern_call", name=name, args=args, kwargs=ekw, node=node, recv=None,
                     func=(fr.func.qualname if fr and fr.func else ""), module=(fr.module if fr else ""))
         argtxt = ", ".join([I.expr_of(a) for a in args] + [f"{k}={I.expr_of(v)}" for k, v in kwargs.items()])
         m = {"extern": name, "args": args, "kwargs": kwargs, "expr": f"{name}({argtxt})"}
